@@ -1432,7 +1432,7 @@ def _gen_history(rng, nrng, N, tail, domain):
 
 
 _METHOD_WEIGHTS = [
-    ("to_array", 5), ("from_array", 4), ("to_dict", 3), ("get", 4), ("items", 3),
+    ("to_array", 5), ("from_array", 7), ("to_dict", 3), ("get", 4), ("items", 3),
     ("common_rowids", 3), ("copy", 3), ("filtered", 4), ("sliced", 4), ("reindexed", 7),
     ("slices1d", 3), ("collapsed", 5), ("column_stack", 7), ("__eq__", 3), ("__ne__", 3),
     ("abscissae", 1), ("size", 1), ("sparsity", 1), ("nbytes", 1), ("ndim", 1),
@@ -1478,12 +1478,12 @@ def _gen_call(rng, nrng, method, N, tail, domain):
         a = _gen_index_array(rng, nrng, (N,) + tail, domain)
         call["args"] = [{"t": "arr", **enc_arr(a)}]
         kw = {}
-        if rng.random() < 0.5:
+        if rng.random() < 0.65:
             vals, cnt = numpy.unique(a, return_counts=True)
             kw["counts"] = _enc_map(dict(zip(vals.tolist(), cnt.tolist())))
         if N == 0 or rng.random() < 0.5:
             kw["common"] = _py(rng.choice(domain))
-        if rng.random() < 0.5:
+        if rng.random() < (0.35 if "counts" in kw else 0.5):
             kw["mapping"] = _enc_map(_gen_mapping(rng, domain, total=True))
         if rng.random() < 0.3 and "counts" in kw:
             call["args"].append(kw.pop("counts"))
@@ -1681,6 +1681,7 @@ def gen_index_cases(rng, tier="quick"):
         if method == "append" and rng.random() < 0.7:
             c0 = rng.choice(domain)
             base["common"] = c0
+            base["mapping"] = None
             call = _gen_call_append(rng, nrng, N, tail, domain, c0)
         else:
             call = _gen_call(rng, nrng, method, N, tail, domain)
